@@ -5,6 +5,7 @@
 //!   `client <client-val>`             → `ok <key:s:w,…>`          the metas `extend_account_metas` pushes
 //!   `extra <key>…`                    → `ok`                      extra readonly accounts appended after the metas
 //!   `drop <i> s|w`                    → `ok`                      account i is created without that flag
+//!   `grant <i> s|w`                   → `ok`                      account i is created with that flag in addition
 //!   `ix <decode-arg> <a> <b> <c> <d>` → `ok <data-hex>`           `MakeInstruction::instruction`
 //!   `run`                             → `ok used=<n> rem=<k> val=<decoded> v=<ok|sig|wr|key> args=<a>,<b>,<c>,<d>` | `err:<class>`
 //!   `cpi`                             → `ok metas=<…> infos=<key,…> decl=<n>` | `err:<class>`
@@ -270,15 +271,26 @@ fn fmt_args(r: &RunArgs) -> String {
     format!("{},{},{},{}", r.a, r.b, r.c as u8, hex(&r.d))
 }
 
+struct CpiOut {
+    program_id: Pubkey,
+    data: Vec<u8>,
+    metas: Vec<OMeta>,
+    infos: Vec<String>,
+    declared_len: usize,
+}
+
 struct RunOut {
     /// direct decode+validate result was `ok` and validation passed
     reached_process: bool,
-    cpi: Option<(String, Option<star_frame::verif_hooks::CpiRecord>)>,
+    /// result class of the CPI made inside `process` and what the hook captured (names resolved while
+    /// the accounts were still alive)
+    cpi: Option<(String, Option<CpiOut>)>,
 }
 
 #[derive(Default)]
 struct St<'a> {
     table: bool,
+    #[allow(dead_code)]
     idx: usize,
     entry: Option<&'a SetEntry>,
     shape: Option<Sexp>,
@@ -286,6 +298,7 @@ struct St<'a> {
     metas: Vec<AccountMeta>,
     extras: Vec<String>,
     drops: Vec<(usize, char)>,
+    grants: Vec<(usize, char)>,
     ix: Option<(SolanaInstruction, RunArgs, Sexp)>,
     run: Option<RunOut>,
 }
@@ -362,6 +375,7 @@ fn exec_inner<'a>(rec: &mut Recorder, table: &'a [SetEntry], st: &mut St<'a>, t:
             st.metas = metas;
             st.extras.clear();
             st.drops.clear();
+            st.grants.clear();
             st.ix = None;
             st.run = None;
             let got = real_metas(&st.metas);
@@ -369,7 +383,7 @@ fn exec_inner<'a>(rec: &mut Recorder, table: &'a [SetEntry], st: &mut St<'a>, t:
             if o_metas(&shape, &v, &mut want).is_none() || want != got {
                 rec.fail("client_metas_differ_from_spec", &format!("{line}: got {} want {}", fmt_metas(&got), fmt_metas(&want)));
             }
-            if got.len() < (e.statics)().0 {
+            if got.len() < (e.statics)().0 && !o_ambiguous(&shape, &v) {
                 rec.fail("fewer_metas_than_min_len", &format!("{line}: {} < MIN_LEN", got.len()));
             }
             format!("ok {}", fmt_metas(&got))
@@ -388,6 +402,15 @@ fn exec_inner<'a>(rec: &mut Recorder, table: &'a [SetEntry], st: &mut St<'a>, t:
                 return bad();
             }
             st.drops.push((i as usize, f.chars().next().unwrap()));
+            st.run = None;
+            "ok".into()
+        }
+        ["grant", i, f] => {
+            let Some(i) = small_dec(i, 2) else { return bad() };
+            if st.client.is_none() || i as usize >= st.metas.len() || !(*f == "s" || *f == "w") {
+                return bad();
+            }
+            st.grants.push((i as usize, f.chars().next().unwrap()));
             st.run = None;
             "ok".into()
         }
@@ -437,6 +460,13 @@ fn exec_inner<'a>(rec: &mut Recorder, table: &'a [SetEntry], st: &mut St<'a>, t:
                     specs[*i].is_writable = false;
                 }
             }
+            for (i, f) in &st.grants {
+                if *f == 's' {
+                    specs[*i].is_signer = true;
+                } else {
+                    specs[*i].is_writable = true;
+                }
+            }
             for x in &st.extras {
                 specs.push(AcctSpec::new(key_of_name(x).unwrap(), System::ID));
             }
@@ -461,10 +491,22 @@ fn exec_inner<'a>(rec: &mut Recorder, table: &'a [SetEntry], st: &mut St<'a>, t:
                 Err(e) => err_class(e),
             };
             let trace = TRACE.with_borrow_mut(std::mem::take);
-            let tampered = !st.drops.is_empty();
+            let cpi_out = trace.cpi.as_ref().map(|(c, r)| {
+                (
+                    c.clone(),
+                    r.as_ref().map(|r| CpiOut {
+                        program_id: r.program_id,
+                        data: r.data.clone(),
+                        metas: r.metas.iter().map(|(k, s, w)| (name_of_key(k), *s, *w)).collect(),
+                        infos: r.infos.iter().map(|i| name_of_key(&Pubkey::new_from_array(*i.key()))).collect(),
+                        declared_len: r.declared_len,
+                    }),
+                )
+            });
+            let tampered = st.drops.iter().any(|d| !st.grants.contains(d));
             let ambiguous = o_ambiguous(&shape, &client);
             let arg_fits = o_arg_of(&shape, &client).as_ref() == Some(&darg);
-            let in_claim = !ambiguous && arg_fits;
+            let in_claim = !ambiguous && arg_fits && (st.extras.is_empty() || !o_has_rest(&shape));
             match direct {
                 Direct::DataErr => {
                     rec.fail("instruction_data_does_not_deserialize", line);
@@ -491,16 +533,14 @@ fn exec_inner<'a>(rec: &mut Recorder, table: &'a [SetEntry], st: &mut St<'a>, t:
                         if used + want_rem != n || rem != want_rem {
                             rec.fail("decode_consumed_count_differs_from_client_metas", &format!("used {used} of {} metas, {rem} left", ix.accounts.len()));
                         }
-                        if st.extras.is_empty() || !o_has_rest(&shape) {
-                            if Some(o_to_client(&valx)) != o_resolve(&shape, &client) {
-                                rec.fail("decoded_set_differs_from_client_value", &format!("client {client} decoded {val}"));
-                            }
+                        if Some(o_to_client(&valx)) != o_resolve(&shape, &client) {
+                            rec.fail("decoded_set_differs_from_client_value", &format!("client {client} decoded {val}"));
                         }
                         let should_pass = !tampered && !o_wrong_fixed(&shape, &client);
                         if should_pass && vc != "ok" {
                             rec.fail("client_flags_insufficient_for_validation", &format!("client {client} -> {v}"));
                         }
-                        if !should_pass && vc == "ok" && !(st.extras.len() > 0 && o_has_rest(&shape)) {
+                        if !should_pass && vc == "ok" {
                             rec.fail("validation_accepts_missing_flag_or_wrong_address", &format!("client {client} drops {:?}", st.drops));
                         }
                     }
@@ -516,7 +556,7 @@ fn exec_inner<'a>(rec: &mut Recorder, table: &'a [SetEntry], st: &mut St<'a>, t:
                         }
                     }
                     let args = trace.run.as_ref().map(fmt_args).unwrap_or_else(|| "-".into());
-                    st.run = Some(RunOut { reached_process: vc == "ok", cpi: trace.cpi });
+                    st.run = Some(RunOut { reached_process: vc == "ok", cpi: cpi_out });
                     format!("ok used={used} rem={rem} val={val} v={vc} args={args}")
                 }
             }
@@ -534,8 +574,7 @@ fn exec_inner<'a>(rec: &mut Recorder, table: &'a [SetEntry], st: &mut St<'a>, t:
             let has_absent = real_metas(&ix.accounts).iter().any(|m| m.0 == "pid");
             match (class.as_str(), record) {
                 ("ok", Some(r)) => {
-                    let metas: Vec<OMeta> = r.metas.iter().map(|(k, s, w)| (name_of_key(k), *s, *w)).collect();
-                    let infos: Vec<String> = r.infos.iter().map(|i| name_of_key(&Pubkey::new_from_array(*i.key()))).collect();
+                    let (metas, infos) = (r.metas.clone(), r.infos.clone());
                     // ---- oracle
                     let client_metas = real_metas(&ix.accounts);
                     if in_claim && metas != client_metas {
@@ -714,6 +753,12 @@ fn emit_group<'a>(rec: &mut Recorder, table: &'a [SetEntry], st: &mut St<'a>, rn
             tampered = true;
         }
     }
+    if perturb && n > 0 && rng.chance(1, 3) {
+        // more privilege than the set requires: nothing may change (in particular not the CPI metas)
+        for _ in 0..rng.range(1, 2) {
+            exec(rec, table, st, &format!("grant {} {}", rng.below(n as u64), if rng.chance(1, 2) { "s" } else { "w" }));
+        }
+    }
     let mut darg = o_arg_of(shape, client).unwrap_or_else(|| default_arg(shape));
     if perturb && rng.chance(1, 6) {
         darg = bump_len(&darg, rng);
@@ -774,7 +819,7 @@ pub fn run(args: &Args) {
     let mut rec = Recorder::new(
         "one case per (derived account set, batch): every present/absent combination of its optional accounts at vec/rest lengths 0..2 \
          (capped), then PRNG-driven values (lengths 0..3, default/explicit/wrong fixed addresses, accounts that equal the program id, \
-         extra trailing accounts, one required flag dropped, one vector length argument off by one). A case is non-trivial when it \
+         extra trailing accounts, one required flag dropped, surplus flags granted, one vector length argument off by one). A case is non-trivial when it \
          contains a run with an absent optional, a run with a non-empty vec/rest, or a rejected (validation / decode error) run; \
          distinct by case text hash.",
     );
@@ -811,7 +856,7 @@ pub fn run(args: &Args) {
     let mut rng = Rng::new(args.seed);
     let thorough = args.thorough();
     let table_line = format!("table {}", table.iter().map(|e| hex(&(e.disc)())).collect::<Vec<_>>().join(" "));
-    let (enum_cap, n_random) = if thorough { (512, 400) } else { (64, 40) };
+    let (enum_cap, n_batches, per_batch) = if thorough { (1024, 20, 100) } else { (128, 4, 40) };
     for (si, e) in table.iter().enumerate() {
         let shape = (e.shape)();
         let header = format!("set {} {shape} {si}", e.name);
@@ -834,21 +879,23 @@ pub fn run(args: &Args) {
             rec.sample_current(3);
         }
         // ---- random
-        rec.case(&format!("case {si}.r random {}", e.name));
-        let mut st = St::default();
-        exec(&mut rec, &table, &mut st, &table_line);
-        exec(&mut rec, &table, &mut st, &header);
-        for _ in 0..n_random {
-            let mut g = Gen { rng: &mut rng, next_key: 0, special: 6 };
-            let v = g.value(&shape, 3);
-            // uniform nested vectors only (else there is no decode argument for the value)
-            if o_arg_of(&shape, &v).is_none() {
-                continue;
+        for batch in 0..n_batches {
+            rec.case(&format!("case {si}.r{batch} random {}", e.name));
+            let mut st = St::default();
+            exec(&mut rec, &table, &mut st, &table_line);
+            exec(&mut rec, &table, &mut st, &header);
+            for _ in 0..per_batch {
+                let mut g = Gen { rng: &mut rng, next_key: 0, special: 6 };
+                let v = g.value(&shape, 3);
+                // uniform nested vectors only (else there is no decode argument for the value)
+                if o_arg_of(&shape, &v).is_none() {
+                    continue;
+                }
+                emit_group(&mut rec, &table, &mut st, &mut rng, &shape, &v, true);
             }
-            emit_group(&mut rec, &table, &mut st, &mut rng, &shape, &v, true);
+            mark(&mut rec);
+            rec.sample_current(5);
         }
-        mark(&mut rec);
-        rec.sample_current(5);
     }
     rec.extra.insert("sets".into(), hx_common::json!(table.iter().map(|e| format!("{} {}", e.name, (e.shape)())).collect::<Vec<_>>()));
     rec.finish(args);
